@@ -128,7 +128,7 @@ class TaskSpec(native_v1_specs.Spec):
         "additionalProperties": False,
     }
 
-    _context_evaluation_sequence = ["delay", "with", "action", "input", "next"]
+    _context_evaluation_sequence = ["delay", "with", "action", "input", "retry", "next"]
 
     def __init__(self, *args, **kwargs):
         super(TaskSpec, self).__init__(*args, **kwargs)
